@@ -142,6 +142,54 @@ def h_moments(ctx, model):
     ctx.prove("C10.second_derivative_of_exponent_is_second_moment", EQ_RATIONAL(2 * pj.c[2], M2), info=info, timeout_ms=60000)
 
 
+def replay_cgmy_first(sc):
+    """real CGMY model at a special activity index: derivative at 0 of the pure-jump exponent (central difference) against the first
+    moment that its declared representation leaves uncompensated (quadrature of x nu(x) for ZERO, 0 for CENTER)"""
+    from scipy.integrate import quad
+
+    y = {"y0": 0.0, "y1": 1.0, "neg": -0.5}[sc["case"]]
+    mdl = CGMY.CGMYModel(CGMY.CGMYParameters(c=0.3, g=6.0, m=9.0, y=y))
+    h = 1e-4
+    d1 = (complex(mdl.levy_exponent_pure_jump(complex(h, 0))).real - complex(mdl.levy_exponent_pure_jump(complex(-h, 0))).real) / (2 * h)
+    rep = mdl.levy_triplet.representation
+    nu = mdl.levy_triplet.nu
+    if rep == LevyRepresentation.ZERO:
+        want = quad(lambda x: x * nu(x), -np.inf, -1e-12)[0] + quad(lambda x: x * nu(x), 1e-12, np.inf)[0]
+    else:
+        want = 0.0
+    return abs(d1 - want) > 1e-5, (f"CGMY(c=0.3, g=6, m=9, y={y}) declared {rep.name}: d/du of the pure-jump exponent at 0 = {d1!r}, first moment left "
+                                   f"uncompensated by that representation = {want!r}")
+
+
+def h_cgmy_first(ctx, case):
+    """CGMY at the activity indices with their own code branch (y = 0, y = 1) and for y < 0: the first derivative of the pure-jump exponent
+    at 0 is the first moment the declared representation leaves uncompensated (0 for CENTER, the full first moment for ZERO)"""
+    Jet.ORDER = 2
+    c, g, m = ctx.real("c"), ctx.real("g"), ctx.real("m")
+    ctx.assume(AND(c > 0, g > 0, m > 0))
+    if case == "y0":
+        y = 0.0
+    elif case == "y1":
+        y = 1.0
+    else:
+        y = ctx.real("y")
+        ctx.assume(AND(y < 0, y > -1))
+    mdl = CGMY.CGMYModel(CGMY.CGMYParameters(c=c, g=g, m=m, y=y))
+    pj = Jet.lift(mdl.levy_exponent_pure_jump(Jet.variable(0.0)))
+    rep = mdl.levy_triplet.representation
+    rp = (replay_cgmy_first, lambda mm: {"case": case})
+    info = {"case": case, "representation": rep.name}
+    ctx.prove("C10.exponent_vanishes_at_zero", EQ_RATIONAL(pj.c[0], 0.0), info=info, replay=rp)
+    if rep == LevyRepresentation.CENTER:
+        want1 = 0.0
+    else:
+        # ZERO: int x nu(dx) = c Gamma(1 - y) (m^(y-1) - g^(y-1))
+        from symx import ad as _AD
+
+        want1 = c * _AD.gamma(1 - y) * (S.sym_pow(m, y - 1) - S.sym_pow(g, y - 1))
+    ctx.prove("C10.first_derivative_of_exponent_is_first_moment_in_declared_representation", EQ_RATIONAL(pj.c[1], want1), info=info, replay=rp, timeout_ms=60000)
+
+
 def h_representations(ctx, seq, fv):
     """converting the drift between representations is path-independent and reversible (abstract moments)"""
     a0 = ctx.real("a0")
@@ -225,6 +273,8 @@ def harnesses(tier):
         hs.append(Harness(f"cumulants.{model}", h_cumulants, {"model": model, "order": 6}, max_paths=400, timeout_ms=90000))
     for model in ("HEM", "MERTON"):
         hs.append(Harness(f"moments.{model}", h_moments, {"model": model}, max_paths=400, timeout_ms=90000))
+    for case in ("y0", "y1", "neg"):
+        hs.append(Harness(f"cgmy.first.{case}", h_cgmy_first, {"case": case}, max_paths=400, timeout_ms=90000))
     L = 2 if q else 3
     for k in range(2, L + 1):
         for seq in itertools.product(range(4), repeat=k):
@@ -247,8 +297,8 @@ def main(tier):
     bounds = {"cumulants": "HEM, Merton, VG, CGMY (y not in {0,1}) with all parameters symbolic; Taylor order 6 (cumulants 1, 2, 4, 6 of every model)",
               "representations": "every sequence of length <= 2 (quick) / 3 (thorough) of the four representations, finite and infinite variation",
               "martingale": "Black-Scholes, HEM, Merton exponential models, all parameters, all t",
-              "outside": "equality of the exponent with the Lévy-Khintchine integral away from its Taylor data at 0 (a transcendental integral identity); CGMY y in {0,1} branches and "
-                         "CGMY/VG first-moment link; direct simulation of VG/CGMY (not offered)"}
+              "outside": "equality of the exponent with the Lévy-Khintchine integral away from its Taylor data at 0 (a transcendental integral identity); "
+                         "CGMY/VG first-moment link for generic y (CGMY y = 0, y = 1 and y < 0: first derivative against the declared representation is covered); direct simulation of VG/CGMY (not offered)"}
     return run_check(PID, tier, harnesses(tier), expect=EXPECT, bounds=bounds,
                      assumptions=COMMON_ASSUMPTIONS + ["Taylor arithmetic of exp/log/pow (series coefficients) and the gamma/pow functional equations Gamma(s+1) = s Gamma(s), x^a = x^b x^k",
                                                        "abstract measure for the representation conversions"])
